@@ -123,4 +123,39 @@ Proof.
   - unfold build. rewrite fold_left_app. cbn [fold_left]. fold (build V V_eq_dec p).
     destruct IH. apply step_ok; assumption.
 Qed.
+
+  (* (IB) every recorded writer / reader / dependency is an earlier statement *)
+  Definition Back (n : nat) (b : bs V) : Prop :=
+    length (out b) = n /\
+    (forall v w, writer b v = Some w -> w < n) /\
+    (forall v r, In r (readers b v) -> r < n) /\
+    (forall j e, In e (nth j (out b) []) -> e < j).
+
+  Lemma back_step n b s : Back n b -> Back (S n) (add V V_eq_dec b s).
+  Proof.
+    intros (Hl & Hw & Hr & Ho). unfold Back. cbn [add writer readers out]. rewrite Hl.
+    split; [rewrite app_length; cbn; lia|]. split; [|split].
+    - intros v w. destruct (memb v (W s)); [intros H; injection H as <-; lia|].
+      intros H. apply Hw in H. lia.
+    - intros v r. destruct (memb v (W s)); [intros []|].
+      destruct (memb v (R s)); [intros [<-|H]; [lia|apply Hr in H; lia]|intros H; apply Hr in H; lia].
+    - intros j e He. destruct (lt_dec j n) as [Hlt|Hge].
+      + rewrite app_nth1 in He by lia. apply Ho, He.
+      + destruct (Nat.eq_dec j n) as [->|Hne].
+        * rewrite app_nth2, Hl, Nat.sub_diag in He by lia. cbn [nth] in He.
+          rewrite in_app_iff in He. destruct He as [He|He].
+          -- unfold wdeps in He. apply in_flat_map in He. destruct He as (v & _ & Hv).
+             destruct (writer b v) as [w|] eqn:Ew; [|destruct Hv].
+             destruct Hv as [<-|[]]. eapply Hw, Ew.
+          -- apply in_flat_map in He. destruct He as (v & _ & Hv). eapply Hr, Hv.
+        * rewrite nth_overflow in He; [destruct He|]. rewrite app_length, Hl. cbn. lia.
+  Qed.
+
+  Theorem back_build : forall p, Back (length p) (build V V_eq_dec p).
+  Proof.
+    induction p as [|s p IH] using rev_ind.
+    - repeat split; try discriminate; cbn; intros; try contradiction. destruct j; destruct H.
+    - unfold build. rewrite fold_left_app. cbn [fold_left]. fold (build V V_eq_dec p).
+      rewrite app_length. cbn. rewrite Nat.add_1_r. apply back_step, IH.
+  Qed.
 End Inv.
